@@ -104,6 +104,9 @@ type SimExt struct {
 	// context.WithCancel that the finish function cancels (a span per field,
 	// ended when the field is done)
 	SpanPerField bool
+	// OnExecFinish, when set, is called by the execution finish function (an
+	// extension that ends the request's own context when the execution is over)
+	OnExecFinish func()
 }
 
 func (e *SimExt) out(ctx context.Context) context.Context {
@@ -153,6 +156,9 @@ func (e *SimExt) ExecutionDidStart(ctx context.Context) (context.Context, graphq
 			info = fmt.Sprintf("data=%v nerr=%d", r.Data != nil, len(r.Errors))
 		}
 		e.R.hook(e.N, "EE", "", info)
+		if e.OnExecFinish != nil {
+			e.OnExecFinish()
+		}
 	}
 }
 
